@@ -98,6 +98,15 @@ func entityExpandDriver(raw json.RawMessage) *Out {
 			out.Note = text + "\n" + err.Error()
 			return out
 		}
+		// Two parts of the expansion under one name ("one upsert topic per summary", every command service, ... "all named
+		// from the entity name"): observed as a duplicate symbol in the generated files.
+		if parts := entDuplicateParts(err.Error(), &c.Exp); len(parts) > 0 {
+			out.V("C17|expansion|duplicate-part|"+strings.Join(parts, "+"), "entity %s does not compile: two parts of the expansion are generated under one name (%v): %s",
+				c.Src.Name, parts, entFirstLine(err.Error()))
+			out.Nontrivial = true
+			out.Note = text + "\n" + err.Error()
+			return out
+		}
 		// Any other rejection of a documented declaration is property C07's business; skipped and counted.
 		out.Skip = "rejected: " + entErrClass(err.Error())
 		out.Note = text + "\n" + err.Error()
@@ -219,6 +228,42 @@ func entDanglingParts(msg string, want *entExpansion) []string {
 	seen := map[string]bool{}
 	var parts []string
 	for _, m := range entNotFoundRe.FindAllStringSubmatch(msg, -1) {
+		n := m[1]
+		if i := strings.LastIndex(n, "."); i >= 0 {
+			n = n[i+1:]
+		}
+		if p, ok := names[strings.ToLower(n)]; ok && !seen[p] {
+			seen[p] = true
+			parts = append(parts, p)
+		}
+	}
+	sort.Strings(parts)
+	return parts
+}
+
+var entAlreadyDefinedRe = regexp.MustCompile(`symbol "([^"]+)" already defined`)
+
+// entDuplicateParts names the kinds of expansion parts (by the names the model predicts for them) that the link error
+// reports as defined twice.
+func entDuplicateParts(msg string, want *entExpansion) []string {
+	names := map[string]string{}
+	add := func(n, kind string) {
+		if n != "" {
+			names[strings.ToLower(n)] = kind
+		}
+	}
+	add(want.Publish.Name, "publish-topic")
+	add(want.Publish.Message, "publish-message")
+	for _, u := range want.Upserts {
+		add(u.Name, "upsert-topic")
+		add(u.Message, "upsert-message")
+	}
+	for _, cm := range want.Commands {
+		add(cm.Name, "command-service")
+	}
+	seen := map[string]bool{}
+	var parts []string
+	for _, m := range entAlreadyDefinedRe.FindAllStringSubmatch(msg, -1) {
 		n := m[1]
 		if i := strings.LastIndex(n, "."); i >= 0 {
 			n = n[i+1:]
